@@ -7,12 +7,6 @@ U = ("C02", "C08", "C12", "C15", "C17", "C20", "C10")
 
 def apply(ctx, W):
     # ---- callees (trusted contracts for now)
-    ss = W.file("semantic/semantic_state.rs")
-    fn_into_verus(ctx, ss, "SemanticState::get_module_for_path", mode="T", ret="r", tags=("C08", "C19", "C11"),
-                  ensures=["match r { Some(m) => module_of(self, *path) == Some(*m), None => module_of(self, *path) is None }"])
-    tr = W.file("semantic/type_registry.rs")
-    fn_into_verus(ctx, tr, "TypeRegistry::resolve_grammar_type", mode="T", ret="r", tags=("C08", "C05", "C10", "C11"),
-                  ensures=["r == spec_resolve_type(self, scope@, *type_)"])
     g = W.file("grammar.rs")
     fn_into_verus(ctx, g, "Attributes::doc", mode="T", ret="r", tags=("C17",),
                   ensures=["r is Ok ==> opt_string_view(r->Ok_0) == spec_doc(self.0@)"])
@@ -24,7 +18,7 @@ def apply(ctx, W):
     fw = W.file("semantic/enum_definition.rs")
     rules.plumbing_once(fw)
     stm = "definition.statements@"
-    fn, u = fn_into_verus(ctx, fw, "build", ret="res", tags=U, requires=[], ensures=[
+    fn, u = fn_into_verus(ctx, fw, "build", ret="res", tags=U, requires=["reg_wf(&semantic.type_registry)"], ensures=[
         ("""res is Ok && res->Ok_0 is Some ==> ({
             let isr = res->Ok_0->0;
             let reg = &semantic.type_registry;
